@@ -232,6 +232,9 @@ func (ex *Exec) store(p *PtrV, nv Value) {
 		panic(ex.goPanic("nil pointer dereference (store)"))
 	}
 	nv = copyVal(nv)
+	if len(ex.W.watches) > 0 {
+		ex.noteWrite(p.obj, p.path)
+	}
 	if len(p.path) == 0 {
 		p.obj.v = nv
 		return
